@@ -153,20 +153,28 @@ def special_args(qn, g):
         a = [10.0, 10.5, 11.0]
         d = [5.0, 5.2, 5.4]
         return (tuple(Angle(v) for v in (a[0], d[0], a[1], d[1], a[2], d[2], 10.6, 5.5, 10.5, 5.1, 10.4, 4.7)), {})
+    # tabular arguments: "list" in the docstrings, list OR tuple accepted; odd and even lengths (an even table drops its last row)
+    box = rng.choice([list, tuple])
+    forced = g.force.get("_table")
+    if forced:
+        box = {"list": list, "tuple": tuple}[forced[1]]
     if qn == "Coordinates.planetary_conjunction":
-        n = rng.choice([3, 5])
-        a1 = [Angle(100.0 + 1.0 * k) for k in range(n)]
-        a2 = [Angle(100.4 + 0.8 * k) for k in range(n)]
-        d1 = [Angle(10.0 + 0.2 * k) for k in range(n)]
-        d2 = [Angle(12.0 + 0.1 * k) for k in range(n)]
+        n = forced[0] if forced else rng.choice([3, 4, 5, 6])
+        a1 = box(Angle(100.0 + 1.0 * k) for k in range(n))
+        a2 = box(Angle(100.3 + 0.8 * k) for k in range(n))
+        d1 = box(Angle(10.0 + 0.2 * k) for k in range(n))
+        d2 = box(Angle(12.0 + 0.1 * k) for k in range(n))
         return ((a1, d1, a2, d2), {})
     if qn == "Coordinates.planet_star_conjunction":
-        a1 = [Angle(100.0 + 1.0 * k) for k in range(5)]
-        d1 = [Angle(10.0 + 0.2 * k) for k in range(5)]
-        return ((a1, d1, Angle(102.3), Angle(11.0)), {})
+        n = forced[0] if forced else rng.choice([3, 4, 5, 6])
+        a1 = box(Angle(100.0 + 1.0 * k) for k in range(n))
+        d1 = box(Angle(10.0 + 0.2 * k) for k in range(n))
+        return ((a1, d1, Angle(101.3), Angle(11.0)), {})
     if qn == "Coordinates.planet_stars_in_line":
-        a1 = [Angle(100.0 + 1.0 * k) for k in range(5)]
-        d1 = [Angle(10.0 + 1.2 * k) for k in range(5)]
+        n = forced[0] if forced else rng.choice([3, 4, 5, 6])
+        c = ((n if n % 2 else n - 1) - 1) / 2.0 + 0.3          # the planet crosses the stars' line 0.3 steps after mid-table
+        a1 = box(Angle(101.2 + 1.0 * (k - c)) for k in range(n))
+        d1 = box(Angle(12.09 + 1.2 * (k - c)) for k in range(n))
         return ((a1, d1, Angle(101.0), Angle(12.0), Angle(103.0), Angle(12.9)), {})
     if qn == "Earth.set":
         from pymeeus.Earth import IAU76
@@ -279,7 +287,7 @@ def call_event(entry, fn, args, kwargs, selfobj, G, cls_tag, variant=""):
     gpre = G.digest()
     try:
         res = fn(*args, **kwargs)
-        oc, rd, fin, shp = "ok", digest(res), 1 if (finite(res) or (res is None and qn in A.MUTATORS)) else 0, shape(res)
+        oc, rd, fin, shp = "ok", digest(res), 1 if (finite(res) or (res is None and qn in A.MUTATORS) or A.NONE_OK.get(qn) == shape(res)) else 0, shape(res)
         if isinstance(res, (list, tuple)) and res is not None:
             # a result that aliases an argument list would let the caller corrupt it later: not a value copy
             pass
@@ -296,25 +304,48 @@ def call_event(entry, fn, args, kwargs, selfobj, G, cls_tag, variant=""):
             "nargs": len(args)}
 
 
+TABULAR = ("Coordinates.planetary_conjunction", "Coordinates.planet_star_conjunction", "Coordinates.planet_stars_in_line")
+
+
+def edge_reps(entry):
+    """("edge", parameter, value) pseudo-repetitions for the documented-domain edges of this callable"""
+    qn, m, cls, attr, kind = entry
+    if qn in TABULAR:
+        return [("edge", "_table", (n, b)) for n in (3, 4, 5, 6) for b in ("list", "tuple")]
+    if qn in SET_ARGS or attr == "__init__":
+        return []
+    try:
+        owner = getattr(A._mod(m), cls) if cls else A._mod(m)
+        sig = inspect.signature(getattr(owner, attr))
+    except (TypeError, ValueError, AttributeError):
+        return []
+    out = []
+    for p in sig.parameters.values():
+        if p.name != "self":
+            out += [("edge", p.name, v) for v in A.edges_for(qn, p.name)]
+    return out
+
+
 def gen_calls(seed, part, parts, reps, with_ill, passes=2):
     """pass 1: every callable of this part in catalogue order, `reps` well-typed argument sets each (+ ill-typed
     variants); passes 2..: the SAME calls (same seeded arguments) in a shuffled order - equal arguments must give
     equal results whatever was called in between."""
     entries = [e for i, e in enumerate(A.callables()) if i % parts == part]
     G = Globals()
-    order = [(e, rep) for e in entries for rep in range(reps)]
+    order = [(e, rep) for e in entries for rep in list(range(reps)) + edge_reps(e)]
     for pas in range(passes):
         if pas > 0:
             random.Random("shuffle/%s/%s/%s" % (seed, part, pas)).shuffle(order)
         for (entry, rep) in order:
-            g = A.Gen("calls/%s/%s/%s" % (seed, entry[0], rep))
+            force = {rep[1]: rep[2]} if isinstance(rep, tuple) else None
+            g = A.Gen("calls/%s/%s/%s" % (seed, entry[0], rep), force)
             bc = build_call(entry, g)
             if bc is None:
                 if pas == 0 and rep == 0:
                     yield {"k": "skip", "f": entry[0], "site": entry[0]}
                 continue
             fn, args, kwargs, selfobj = bc
-            yield call_event(entry, fn, args, kwargs, selfobj, G, "well")
+            yield call_event(entry, fn, args, kwargs, selfobj, G, "well", "" if force is None else "edge:%s=%r" % (rep[1], rep[2]))
             if with_ill and pas == 0 and rep == 0 and entry[3] not in ("__init__", "__str__", "__repr__", "__call__", "__len__",
                                                                        "__float__", "__int__", "__hash__", "__neg__", "__abs__"):
                 for (tag, bad) in ill_variants(tuple(args), g.rng):
